@@ -1605,3 +1605,76 @@ Proof.
     by (vm_compute; reflexivity).
   intros n T Hn HT. rewrite forallb_forall in H. specialize (H n Hn). rewrite forallb_forall in H. apply H, HT.
 Qed.
+
+(* ------------------------------------------------------------------ the one-site step is time-symmetric exactly on chains *)
+Definition pe1_of (l : list pevent) : list nat :=
+  flat_map (fun e => match e with PE1 n _ => [n] | _ => [] end) l.
+Lemma pe1_app : forall a b, pe1_of (a ++ b) = pe1_of a ++ pe1_of b.
+Proof. intros. unfold pe1_of. apply flat_map_app. Qed.
+Lemma pe1_phys : forall l, pe1_of (phys l) = map fst (ev1_of l).
+Proof.
+  induction l as [|e l IH]; [reflexivity|].
+  change (phys (e :: l)) with (phys1 e ++ phys l). rewrite pe1_app, IH.
+  destruct e; reflexivity.
+Qed.
+Lemma pe1_mirror_rev : forall l, pe1_of (map mirror (rev l)) = rev (pe1_of l).
+Proof.
+  induction l as [|e l IH]; [reflexivity|].
+  cbn [rev]. rewrite map_app, pe1_app, IH. cbn [map].
+  change (e :: l) with ([e] ++ l). rewrite pe1_app, rev_app_distr.
+  destruct e; reflexivity.
+Qed.
+
+Lemma rev_postorder : forall t, rev (postorder t) = ids (rev_children t).
+Proof.
+  apply tree_ind'. intros n ch HF. cbn [postorder rev_children ids].
+  rewrite rev_app_distr. cbn [rev app]. f_equal.
+  induction HF as [|c l Hc HF IH]; [reflexivity|].
+  cbn [flat_map map rev]. rewrite rev_app_distr, flat_map_app, IH, Hc. cbn [flat_map]. rewrite app_nil_r. reflexivity.
+Qed.
+
+Lemma ids_rc_in : forall t x, In x (ids (rev_children t)) -> In x (ids t).
+Proof.
+  intros t x H. rewrite <- rev_postorder in H. apply in_rev in H.
+  eapply Permutation_in; [apply postorder_perm|exact H].
+Qed.
+Lemma ids_rc_list_in : forall L x, In x (flat_map ids (rev (map rev_children L))) -> In x (flat_map ids L).
+Proof.
+  intros L x H. apply in_flat_map in H. destruct H as [t' [Ht Hx]]. apply in_rev in Ht.
+  apply in_map_iff in Ht. destruct Ht as [t0 [E Ht0]]. subst t'.
+  apply in_flat_map. exists t0. split; [exact Ht0|apply ids_rc_in, Hx].
+Qed.
+
+Lemma ids_rev_children_linear : forall t, NoDup (ids t) -> ids t = ids (rev_children t) -> is_linear t = true.
+Proof.
+  apply (tree_ind' (fun t => NoDup (ids t) -> ids t = ids (rev_children t) -> is_linear t = true)).
+  intros n ch HF ND E. cbn [ids rev_children] in *. inversion ND as [|? ? Hn ND']; subst.
+  injection E as E. cbn [is_linear].
+  destruct ch as [|c [|d l]].
+  - reflexivity.
+  - cbn [length Nat.leb forallb andb]. inversion HF as [|? ? Hc _]; subst. rewrite andb_true_r.
+    cbn [map rev app flat_map] in E, ND'. rewrite !app_nil_r in E. rewrite !app_nil_r in ND'. apply Hc; assumption.
+  - exfalso. cbn [map rev] in E. rewrite flat_map_app in E.
+    change (map rev_children (d :: l)) with (map rev_children (d :: l)) in E.
+    set (P := flat_map ids (rev (map rev_children l) ++ [rev_children d])) in E.
+    assert (HP : forall x, In x P -> In x (flat_map ids (d :: l))).
+    { intros x Hx. apply (ids_rc_list_in (d :: l) x). exact Hx. }
+    cbn [flat_map] in E, ND'. destruct c as [m chc]. cbn [ids app] in E, ND'.
+    destruct P as [|x P'] eqn:EP.
+    + assert (F : In (tid (rev_children d)) P).
+      { unfold P. rewrite flat_map_app. apply in_or_app. right. cbn [flat_map]. rewrite app_nil_r. apply tid_in_ids. }
+      rewrite EP in F. destruct F.
+    + cbn [app] in E. injection E as E1 _. subst x.
+      inversion ND' as [|? ? Hm _]; subst. apply Hm. apply in_or_app. right.
+      apply (HP m). left. reflexivity.
+Qed.
+
+Theorem ps_symmetric_iff_linear : forall h t, NoDup (ids t) ->
+  (phys (bwd h None t) = map mirror (rev (phys (fwd h None t))) <-> is_linear t = true).
+Proof.
+  intros h t ND. split.
+  - intros E. apply ids_rev_children_linear; [exact ND|].
+    apply (f_equal pe1_of) in E. rewrite pe1_mirror_rev, !pe1_phys, bwd_ev1, fwd_ev1, !tag_fst in E.
+    rewrite E. apply rev_postorder.
+  - apply ps_symmetric_linear_all.
+Qed.
